@@ -94,6 +94,24 @@ def run(pid, tier, seed, replay=None):
         scs = [json.load(open(replay))["scenario"]]
     results, tv_states, blocks, note = run_api(pid, tier, seed, scs, pid)
     new, known_hits, others, blk, by_id = classify(pid, scs, results, blocks, PREFIX[pid], "api")
+    popen_part = {}
+    if pid == "C12" and replay is None:
+        # the Popen handle itself (virtual child pid, every point of the child's life, signals sent before the drop,
+        # detached or not): ProcEnv's C12 monitors on recorded executions, plus the algorithm model Proc.tla
+        from . import c_proc
+        pmc, pby, pres, pstates, pblocks, pnote = c_proc.run_traces("C12", tier, seed)
+        mc += pmc
+        pblk = {json.loads(b[0])["id"]: b for b in pblocks}
+        pseen = set()
+        for r in pres:
+            for v in r["viol"]:
+                if v.startswith("C12_") and v not in pseen:
+                    pseen.add(v)
+                    path = save_replay(pid, {"property": pid, "monitor": v, "signature": v + "/popen", "engine": "proc",
+                                             "scenario": pby[r["id"]], "trace": [json.loads(x) for x in pblk[r["id"]]][:300]})
+                    new.append(("%s fired in history %s of a Popen" % (v, r["id"]), path))
+        tv_states += pstates
+        popen_part = {"histories_of_a_popen_with_virtual_child": len(pres), "note": pnote}
     nontrivial = set(r["id"] for r in results if any('"n":"fork"' in ln for ln in blk[r["id"]]))
     samples = [{"scenario": by_id[i], "events": [json.loads(x) for x in blk[i] if '"e":"sys"' not in x][:6]}
                for i in list(blk)[:2]]
@@ -112,6 +130,7 @@ def run(pid, tier, seed, replay=None):
         "trace_validation_states": tv_states,
         "monitors_of_other_properties_fired": others,
         "replay_note": note,
+        "popen_handle": popen_part,
         "scenarios_not_run_after_repeated_hangs": len(scs) - len(results),
     }
     assumptions = [
